@@ -27,7 +27,9 @@ type c15 struct{}
 
 func init() { core.Register("C15", func() core.Scenario { return c15{} }) }
 
-var c15names = []string{"A", "B", "C"}
+// the name of the directory itself is in the universe: a name like any other
+// once the entry of the directory has been unregistered
+var c15names = []string{"A", "B", "C", "A", "B", "C", "ServiceDirectory"}
 
 func (c15) Gen(r *rand.Rand, tier string, run int) *core.Case {
 	c := &core.Case{Prop: "C15", Params: map[string]int{}}
@@ -41,6 +43,7 @@ func (c15) Gen(r *rand.Rand, tier string, run int) *core.Case {
 	if c.Net.ReadMode == "tiny" {
 		c.Net.ReadMode = "random"
 	}
+	c.Params["unregister_directory"] = r.IntN(2)
 	if r.IntN(4) == 0 {
 		c.Params["broken"] = 1
 		c.Params["break_after"] = r.IntN(120)
@@ -80,23 +83,23 @@ func c15op(r *rand.Rand, actor int, local bool) core.Op {
 			return core.Op{Kind: "terminate", Actor: actor, X: int64(r.IntN(3))}
 		}
 		if r.IntN(3) == 0 {
-			return core.Op{Kind: "local-lookup", Actor: actor, S: c15names[r.IntN(3)]}
+			return core.Op{Kind: "local-lookup", Actor: actor, S: c15names[r.IntN(len(c15names))]}
 		}
-		return core.Op{Kind: "newservice", Actor: actor, S: c15names[r.IntN(3)]}
+		return core.Op{Kind: "newservice", Actor: actor, S: c15names[r.IntN(len(c15names))]}
 	}
 	switch k := r.IntN(12); {
 	case k < 3:
-		return core.Op{Kind: "register", Actor: actor, S: c15names[r.IntN(3)]}
+		return core.Op{Kind: "register", Actor: actor, S: c15names[r.IntN(len(c15names))]}
 	case k < 4:
-		return core.Op{Kind: "register-invalid", Actor: actor, S: c15names[r.IntN(3)], X: int64(r.IntN(3))}
+		return core.Op{Kind: "register-invalid", Actor: actor, S: c15names[r.IntN(len(c15names))], X: int64(r.IntN(3))}
 	case k < 6:
 		return core.Op{Kind: "ready", Actor: actor, X: int64(r.IntN(8))}
 	case k < 8:
 		return core.Op{Kind: "unregister", Actor: actor, X: int64(r.IntN(8))}
 	case k < 9:
-		return core.Op{Kind: "update", Actor: actor, X: int64(r.IntN(8)), S: c15names[r.IntN(3)]}
+		return core.Op{Kind: "update", Actor: actor, X: int64(r.IntN(8)), S: c15names[r.IntN(len(c15names))]}
 	case k < 11:
-		return core.Op{Kind: "lookup", Actor: actor, S: c15names[r.IntN(3)]}
+		return core.Op{Kind: "lookup", Actor: actor, S: c15names[r.IntN(len(c15names))]}
 	}
 	return core.Op{Kind: "list", Actor: actor}
 }
@@ -292,8 +295,8 @@ func (c15) Run(c *core.Case, env *core.Env) {
 					env.Return(h, "", err)
 				case "unregister":
 					id := pickID(op.X)
-					if id == 1 {
-						continue // never unregister the directory itself
+					if id == 1 && c.P("unregister_directory", 0) == 0 {
+						continue // (most runs) the entry of the directory itself stays
 					}
 					h := env.Invoke(a, "unregister", fmt.Sprint(id))
 					err := proxies[a].UnregisterService(id)
@@ -687,7 +690,7 @@ func (c15) PostCheck(c *core.Case, env *core.Env, v *core.Verdict) {
 			addedAt[e.id] = i
 		} else {
 			removedN[e.id]++
-			if addedN[e.id] == 0 {
+			if addedN[e.id] == 0 && e.id != 1 { // (the directory's own entry was ready before anybody listened)
 				bad("events/removed-before-added", "service %d: service-removed event without a preceding service-added event", e.id)
 			}
 		}
